@@ -37,6 +37,8 @@ def cfg(name, tiers, c, shards=14, rej_sample=0, chains=("eth",), **kw):
 DEV = consts(1, 1, 0, 1, 1, 2, [1], [0], [1])
 POOL_Q = consts(2, 2, 0, 1, 1, 3, [1, 2], [0, 2], [1, 3])
 CALL_Q = consts(0, 0, 2, 0, 2, 4, [1], [0], [1])
+CALLDEP_Q = consts(0, 0, 1, 0, 1, 3, [1], [0], [1], dep=2)   # result parked, then a deposit event at height >= timeout
+CALLDEP_T = consts(0, 0, 2, 0, 2, 4, [1], [0], [1], dep=2)
 MIX_Q = consts(1, 1, 1, 0, 2, 4, [1], [0], [1])
 POOL_T = consts(2, 2, 0, 2, 2, 3, [1, 2], [0, 2], [1, 3])
 CALL_T = consts(0, 0, 2, 1, 3, 4, [1], [0], [1], kc=2)
@@ -47,13 +49,16 @@ MC = [
     dict(name="call", tiers=["quick", "thorough"], consts=CALL_T),
     dict(name="mix", tiers=["thorough"], consts=MIX_T, timeout=2400),
     dict(name="mixq", tiers=["quick"], consts=MIX_Q),
+    dict(name="calldep", tiers=["quick", "thorough", "dev"], consts=CALLDEP_T),
     dict(name="dev", tiers=["dev"], consts=DEV),
 ]
 GEN = [
     cfg("dev", ["dev"], DEV, rej_sample=3),
     cfg("pool", ["quick"], POOL_Q, rej_sample=2),
     cfg("call", ["quick"], CALL_Q, rej_sample=2),
+    cfg("calldep", ["quick", "dev"], CALLDEP_Q, rej_sample=0),
     cfg("mix", ["quick"], MIX_Q, rej_sample=2),
+    cfg("calldepT", ["thorough"], CALLDEP_T, shards=16),
     cfg("poolT", ["thorough"], POOL_T, shards=16),
     cfg("callT", ["thorough"], CALL_T, shards=16),
     cfg("mixT", ["thorough"], MIX_T, shards=16),
